@@ -618,7 +618,26 @@ fn reopen(tmp: &Path, w: &Workload, img: &Image, cont: bool) -> Opened {
             Ok(Err(e)) => format!("E{e:?}"),
             Err(_) => "Epanic".to_string(),
         };
-        out.push_str(&format!("open=ok ho={ho} fc={fc} heads={heads}"));
+        // the recovered writer's private state, read off its `Debug` output:
+        // generation, write frontier, allocation end, next root slot
+        let dbg = format!("{writer:?}");
+        let field = |name: &str| -> String {
+            match dbg.find(name) {
+                Some(i) => dbg[i + name.len()..]
+                    .chars()
+                    .skip_while(|c| *c == ' ')
+                    .take_while(|c| c.is_ascii_digit() || *c == '-')
+                    .collect(),
+                None => String::new(),
+            }
+        };
+        out.push_str(&format!(
+            "open=ok ho={ho} fc={fc} heads={heads} gen={} free={} ae={} nr={}",
+            field("generation:"),
+            field("free_offset:"),
+            field("alloc_end:"),
+            field("next_root:")
+        ));
         match w.kind {
             Kind::Api => {
                 let rd = writer.readonly();
